@@ -34,7 +34,16 @@ type Node struct {
 	Out   chan dkg.SharingOutput
 	Outs  []dkg.SharingOutput
 	Down  bool
-	rm    func()
+	// Offset is this node's clock skew (seen by its code through package time)
+	Offset time.Duration
+	rm     func()
+}
+
+// as runs f with the calling thread's clock set to the node's (threads spawned inside inherit it).
+func (nd *Node) as(f func()) {
+	old := vrt.SetThreadOffset(nd.Offset)
+	defer vrt.SetThreadOffset(old)
+	f()
 }
 
 type Sent struct {
@@ -65,10 +74,7 @@ func New(sch *crypto.Scheme) *Net {
 
 // NewPair makes a key pair for an address (outside or inside a run).
 func NewPair(sch *crypto.Scheme, addr string) (*key.Pair, *pdkg.Participant) {
-	kp, err := key.NewKeyPair(addr, sch)
-	if err != nil {
-		panic(err)
-	}
+	kp := fix.DetKeyPair(addr, addr, sch)
 	p, err := util.PublicKeyAsParticipant(kp.Public)
 	if err != nil {
 		panic(err)
@@ -137,9 +143,11 @@ func (c *client) Packet(ctx context.Context, p dnetpkg.Peer, packet *pdkg.Gossip
 		s.Err = fmt.Errorf("dnet: dropped")
 		return nil, s.Err
 	case 2:
-		_, _ = t.Proc.Packet(ctx, packet)
+		t.as(func() { _, _ = t.Proc.Packet(ctx, packet) })
 	}
-	r, err := t.Proc.Packet(ctx, packet)
+	var r *pdkg.EmptyDKGResponse
+	var err error
+	t.as(func() { r, err = t.Proc.Packet(ctx, packet) })
 	s.Err = err
 	return r, err
 }
@@ -166,9 +174,11 @@ func (c *client) BroadcastDKG(ctx context.Context, p dnetpkg.Peer, in *pdkg.DKGP
 		s.Err = fmt.Errorf("dnet: dropped")
 		return nil, s.Err
 	case 2:
-		_, _ = t.Proc.BroadcastDKG(ctx, in)
+		t.as(func() { _, _ = t.Proc.BroadcastDKG(ctx, in) })
 	}
-	r, err := t.Proc.BroadcastDKG(ctx, in)
+	var r *pdkg.EmptyDKGResponse
+	var err error
+	t.as(func() { r, err = t.Proc.BroadcastDKG(ctx, in) })
 	s.Err = err
 	return r, err
 }
@@ -178,36 +188,57 @@ func (c *client) BroadcastDKG(ctx context.Context, p dnetpkg.Peer, in *pdkg.DKGP
 func (n *Net) md() *pdkg.CommandMetadata { return &pdkg.CommandMetadata{BeaconID: n.BeaconID} }
 
 func (n *Net) Initial(ctx context.Context, leader *Node, joining []*pdkg.Participant, thr int, genesis time.Time, timeout time.Time) error {
-	_, err := leader.Proc.Command(ctx, &pdkg.DKGCommand{Metadata: n.md(), Command: &pdkg.DKGCommand_Initial{Initial: &pdkg.FirstProposalOptions{
-		Timeout: timestamppb.New(timeout), Threshold: uint32(thr), PeriodSeconds: 3, Scheme: n.Scheme.Name, CatchupPeriodSeconds: 1,
-		GenesisTime: timestamppb.New(genesis), Joining: joining}}})
+	var err error
+	leader.as(func() {
+		_, err = leader.Proc.Command(ctx, &pdkg.DKGCommand{Metadata: n.md(), Command: &pdkg.DKGCommand_Initial{Initial: &pdkg.FirstProposalOptions{
+			Timeout: timestamppb.New(timeout), Threshold: uint32(thr), PeriodSeconds: 3, Scheme: n.Scheme.Name, CatchupPeriodSeconds: 1,
+			GenesisTime: timestamppb.New(genesis), Joining: joining}}})
+	})
 	return err
 }
 
 func (n *Net) Reshare(ctx context.Context, leader *Node, remaining, joining, leaving []*pdkg.Participant, thr int, timeout time.Time) error {
-	_, err := leader.Proc.Command(ctx, &pdkg.DKGCommand{Metadata: n.md(), Command: &pdkg.DKGCommand_Resharing{Resharing: &pdkg.ProposalOptions{
-		Timeout: timestamppb.New(timeout), Threshold: uint32(thr), CatchupPeriodSeconds: 1, Remaining: remaining, Joining: joining, Leaving: leaving}}})
+	var err error
+	leader.as(func() {
+		_, err = leader.Proc.Command(ctx, &pdkg.DKGCommand{Metadata: n.md(), Command: &pdkg.DKGCommand_Resharing{Resharing: &pdkg.ProposalOptions{
+			Timeout: timestamppb.New(timeout), Threshold: uint32(thr), CatchupPeriodSeconds: 1, Remaining: remaining, Joining: joining, Leaving: leaving}}})
+	})
 	return err
 }
 
 func (n *Net) Join(ctx context.Context, nd *Node, groupFile []byte) error {
-	_, err := nd.Proc.Command(ctx, &pdkg.DKGCommand{Metadata: n.md(), Command: &pdkg.DKGCommand_Join{Join: &pdkg.JoinOptions{GroupFile: groupFile}}})
+	var err error
+	nd.as(func() {
+		_, err = nd.Proc.Command(ctx, &pdkg.DKGCommand{Metadata: n.md(), Command: &pdkg.DKGCommand_Join{Join: &pdkg.JoinOptions{GroupFile: groupFile}}})
+	})
 	return err
 }
 func (n *Net) Accept(ctx context.Context, nd *Node) error {
-	_, err := nd.Proc.Command(ctx, &pdkg.DKGCommand{Metadata: n.md(), Command: &pdkg.DKGCommand_Accept{Accept: &pdkg.AcceptOptions{}}})
+	var err error
+	nd.as(func() {
+		_, err = nd.Proc.Command(ctx, &pdkg.DKGCommand{Metadata: n.md(), Command: &pdkg.DKGCommand_Accept{Accept: &pdkg.AcceptOptions{}}})
+	})
 	return err
 }
 func (n *Net) Reject(ctx context.Context, nd *Node) error {
-	_, err := nd.Proc.Command(ctx, &pdkg.DKGCommand{Metadata: n.md(), Command: &pdkg.DKGCommand_Reject{Reject: &pdkg.RejectOptions{}}})
+	var err error
+	nd.as(func() {
+		_, err = nd.Proc.Command(ctx, &pdkg.DKGCommand{Metadata: n.md(), Command: &pdkg.DKGCommand_Reject{Reject: &pdkg.RejectOptions{}}})
+	})
 	return err
 }
 func (n *Net) Execute(ctx context.Context, nd *Node) error {
-	_, err := nd.Proc.Command(ctx, &pdkg.DKGCommand{Metadata: n.md(), Command: &pdkg.DKGCommand_Execute{Execute: &pdkg.ExecutionOptions{}}})
+	var err error
+	nd.as(func() {
+		_, err = nd.Proc.Command(ctx, &pdkg.DKGCommand{Metadata: n.md(), Command: &pdkg.DKGCommand_Execute{Execute: &pdkg.ExecutionOptions{}}})
+	})
 	return err
 }
 func (n *Net) Abort(ctx context.Context, nd *Node) error {
-	_, err := nd.Proc.Command(ctx, &pdkg.DKGCommand{Metadata: n.md(), Command: &pdkg.DKGCommand_Abort{Abort: &pdkg.AbortOptions{}}})
+	var err error
+	nd.as(func() {
+		_, err = nd.Proc.Command(ctx, &pdkg.DKGCommand{Metadata: n.md(), Command: &pdkg.DKGCommand_Abort{Abort: &pdkg.AbortOptions{}}})
+	})
 	return err
 }
 
